@@ -449,7 +449,7 @@ def write_baseline():
     print("baseline written: %d (file, kind) rows, totals %s" % (len(info["sites"]), info["total"]))
 
 
-REVIEW_NOTE = """(* REVIEW LOG of the last re-recording (/repo at d86674e, frozen; the commits after 696874e -- 19e2c2a ae779df 3318626 2f7a440 819c36b d86674e -- change no (file, kind) count; the commits after d060422 -- fdf832c same_tokens guard in sql/mod.rs (a call into sqlparser's tokenizer, `.ok()`, no unwrap / index), 0301a92, f30b660, 79abe54, 696874e -- add no site).  Rows that grew since the
+REVIEW_NOTE = """(* REVIEW LOG of the last re-recording (/repo at 6c9d120, final; the last batch -- 66bf387 af135b8 17f83f2 cd7d532 and three hooks -- changes no count, the pin of pl_to_prql follows the fmt-calls hook de8cd03; the commits after 696874e -- 19e2c2a ae779df 3318626 2f7a440 819c36b d86674e -- change no (file, kind) count; the commits after d060422 -- fdf832c same_tokens guard in sql/mod.rs (a call into sqlparser's tokenizer, `.ok()`, no unwrap / index), 0301a92, f30b660, 79abe54, 696874e -- add no site).  Rows that grew since the
    baseline of b55902d, every added site read in its context; each is restated with its guard in Model/ReviewedSites.v
    and proved unreachable in Proofs/ReviewedSitesProofs.v (theorems c12_reviewed_* of Props/C12.v), its text pinned in
    `modelled_expected`:
